@@ -153,6 +153,9 @@ class LetSubstitution:
         for var in node[1]:
             if any(n == var[0] for n in nodes.dfs(node[2])):
                 subs = nodes.substitute(node[2], {var[0]: var[1]})
+                if subs == node[2]:
+                    # (let ((x x)) ...), nothing to substitute
+                    continue
                 yield Simplification({node.id: Node(node[0], node[1], subs)},
                                      [])
 
